@@ -42,7 +42,9 @@ L += ['| property | obligations | what |', '|---|---|---|']
 for (pr, what), obs in sorted(groups.items()):
     L.append('| %s | %d (e.g. `%s`) | %s |' % (pr, len(obs), obs[0], what.replace('|', '\\|')))
 L += ['', '## 13. Seeded changes (independent sub-agents, given only the property text and a scratch worktree)', '',
-      '| seeded | breaks | demo orig / changed | suite on changed tree | caught by | violations |', '|---|---|---|---|---|---|']
+      'Round 1 (`Cxx`) and round 2 (`Cxx_2`, asked for a change of a different nature in a different function).  "final pass" = the patch applied to /repo itself',
+      '(`git -C /repo apply`), the full quick check of the property run as registered in MANIFEST.json, the patch undone straight afterwards (`tools/final_seed_pass.sh`).', '',
+      '| seeded | breaks | demo orig / changed | suite on changed tree | caught by | violations | final pass on /repo (exit, VIOLATION lines, s) |', '|---|---|---|---|---|---|---|']
 for mf in sorted(glob.glob(os.path.join(V, 'seeded', '*', 'meta.json'))):
     m = json.load(open(mf))
     sid = os.path.basename(os.path.dirname(mf))
@@ -52,8 +54,10 @@ for mf in sorted(glob.glob(os.path.join(V, 'seeded', '*', 'meta.json'))):
     if m.get('strengthened'):
         fa = m.get('first_attempt') or {}
         caught += ' **only after strengthening**: ' + m['strengthened'] + ((' (before: exit %s; %s)' % (fa.get('check_exit', '?'), fa.get('note') or fa.get('caught_by') or '')) if fa else '')
-    L.append('| %s | %s | %s / %s | %s | %s | %d%s |' % (sid, m['property'], m.get('demo_on_original_exit'), m.get('demo_on_changed_exit'), str(m.get('test_suite_on_changed', ''))[:40],
-                                                      caught + ((' - ' + m['note']) if m.get('note') else ''), m.get('violation_lines', 0), (' (e.g. `%s`)' % ex) if ex else ''))
+    fp = m.get('final_pass') or {}
+    L.append('| %s | %s | %s / %s | %s | %s | %d%s | %s |' % (sid, m['property'], m.get('demo_on_original_exit'), m.get('demo_on_changed_exit'), str(m.get('test_suite_on_changed', ''))[:40],
+                                                      caught + ((' - ' + m['note']) if m.get('note') else ''), m.get('violation_lines', 0), (' (e.g. `%s`)' % ex) if ex else '',
+                                                      ('exit %s, %s, %s s' % (fp.get('exit'), fp.get('violation_lines'), fp.get('wall_s'))) if fp else '-'))
 L += ['', '<!-- END GENERATED -->']
 p = os.path.join(V, 'DESIGN.md')
 s = open(p).read()
